@@ -88,10 +88,14 @@ def _worker(args):
     except Exception as e:
         s = Shard()
         tb = traceback.extract_tb(e.__traceback__)
-        inner = tb[-1] if tb else None
-        if inner is not None and "/ImageD11/" in inner.filename and "/verif/vt/" not in inner.filename:
-            # the exception was raised INSIDE the library on a call the harness considers well formed (every check runs on inputs
-            # of its property's domain, where no property allows an exception): a violation, not a harness failure
+        # the last frame that belongs to the harness, and the library frame (if any) the exception passed through below it
+        last_h = max([i for i, f in enumerate(tb) if "/verif/vt/" in f.filename], default=-1)
+        lib = [f for f in tb[last_h + 1:] if "/ImageD11/" in f.filename and "/verif/vt/" not in f.filename]
+        inner = lib[-1] if lib else None
+        if inner is not None:
+            # the exception came out of a library call (raised in the library itself or in something the library called, e.g. xfab
+            # on a cell the grain had cached) that the harness considers well formed - every check runs on inputs of its property's
+            # domain, where no property allows an exception: a violation, not a harness failure
             s.violation("library-raised:%s:%s" % (type(e).__name__, inner.name), {"shard": jsonable(desc)},
                         {"error": str(e)[:300], "where": "%s:%d" % (inner.filename.split("/ImageD11/")[-1], inner.lineno),
                          "traceback_tail": traceback.format_exc()[-1500:]})
